@@ -55,6 +55,14 @@ Selected(a, d) == \E i \in 1..Len(a.sels) : a.sels[i].d = d
 FlagDate(c) == c[1] * 1000 + (DayNum("std", c[1], c[2], c[3]) - DaysBeforeYear("std", c[1]) + 1)
 FlagTime(c) == c[4] * 10000 + c[5] * 100 + c[6]
 
+\* seconds from civil tuple c1 to c2; a time axis has one step when all its
+\* consecutive differences are equal (a file stacked onto itself has none, and
+\* then no TSTEP value describes it: the attribute is left undecided)
+SecsBetween(c1, c2) ==
+  (DayNum("std", c2[1], c2[2], c2[3]) - DayNum("std", c1[1], c1[2], c1[3])) * 86400
+  + (c2[4] - c1[4]) * 3600 + (c2[5] - c1[5]) * 60 + (c2[6] - c1[6])
+UniformStep(ts) == \A i \in 1..(Len(ts) - 2) : SecsBetween(ts[i], ts[i + 1]) = SecsBetween(ts[i + 1], ts[i + 2])
+
 \* "" when the window keeps geo- and time-referencing, else the failing clause
 WindowDiag(f, m, a, g, n) ==
   IF n.xorig # m.xorig + (IF Selected(a, "COL") THEN First(f, a, "COL") * m.xcell ELSE 0)
@@ -72,6 +80,8 @@ WindowDiag(f, m, a, g, n) ==
     THEN "decoded times are not the same sub-range of the source's decoded times"
   ELSE IF n.sdate # FlagDate(n.times[1]) \/ n.stime # FlagTime(n.times[1])
     THEN "SDATE/STIME are not the first retained timestamp"
-  ELSE IF Len(n.times) >= 2 /\ n.tstep # m.tstep THEN "TSTEP changed although the step between retained times did not"
+  ELSE IF Len(n.times) >= 2 /\ UniformStep(n.times) /\ SecsBetween(n.times[1], n.times[2]) > 0
+          /\ n.tstep # SecToHms(SecsBetween(n.times[1], n.times[2]))
+    THEN "TSTEP is not the step between the retained times"
   ELSE ""
 =================================================================================
